@@ -1,41 +1,765 @@
+// c33: util.BaseJobWorker / ErrCallbackJobWorker / RunJobWorker / BatchWork.
+// (1) forced schedules: jobs are parked on channels, the harness issues NewJob / job end / Done /
+//     Cancel / Wait one at a time and observes what each call returns and when Wait returns; the
+//     same schedule is replayed by the Coq model (coq/C33/Model.v).
+// (2) free-running RunJobWorker / RunErrCallbackJobWorker / BatchWork with random sizes, failing
+//     jobs and cancellations; the property's own statement is checked on the result.
 package main
 
 import (
 	"context"
 	"errors"
 	"fmt"
+	"sort"
+	"sync"
+	"sync/atomic"
 	"time"
 
 	"github.com/spikeekips/mitum/util"
+	"verifharness/vh"
 )
 
-func main() {
-	// (b) workersize 1: job 0 parks then fails while NewJob(1) is blocked in Acquire
-	rel := make(chan struct{})
-	e0 := errors.New("job0 failed")
-	go func() { time.Sleep(50 * time.Millisecond); close(rel) }()
-	err := util.RunJobWorker(context.Background(), 1, 2, func(ctx context.Context, i, _ uint64) error {
-		if i == 0 {
-			<-rel
-			return e0
+type opT struct {
+	K    int  `json:"k"` // 0 NewJob, 1 JobEnd, 2 Done, 3 Cancel, 4 Wait
+	ID   int  `json:"id"`
+	Fail bool `json:"fail"`
+}
+
+type replay struct {
+	Kind  string `json:"kind"` // "schedule" | "free"
+	Size  int    `json:"size"`
+	ErrCb bool   `json:"errcb"`
+	Ops   []opT  `json:"ops"`
+	Free  *freeCase `json:"free,omitempty"`
+}
+
+type jobError struct{ id int }
+
+func (e *jobError) Error() string { return fmt.Sprintf("verif: job %d failed", e.id) }
+
+func errCode(err error) int {
+	var je *jobError
+	switch {
+	case err == nil:
+		return 0
+	case errors.As(err, &je):
+		return 10 + je.id
+	case errors.Is(err, util.ErrJobWorkerDone):
+		return 2
+	case errors.Is(err, context.Canceled):
+		return 1
+	default:
+		return 99
+	}
+}
+
+const long = 20 * time.Second
+
+// ---------------------------------------------------------------- forced schedules
+
+type obs struct{ R1, R2, W int }
+
+type schedResult struct {
+	obs       []obs
+	inv       []int
+	errfs     []int
+	runningAtWaitReturn []int
+	waitErr   int // -1 not returned
+	notes     []string
+}
+
+func runSchedule(size int, errcb bool, ops []opT) schedResult {
+	var mu sync.Mutex
+	inv := map[int]int{}
+	release := map[int]chan error{}
+	ctxs := map[int]context.Context{}
+	startedCh := make(chan int, 1024)
+	errfCh := make(chan int, 1024)
+	var errfs []int
+
+	var wk *util.BaseJobWorker
+	if errcb {
+		wk, _ = util.NewErrCallbackJobWorker(context.Background(), int64(size), func(err error) {
+			var je *jobError
+			id := -1
+			if errors.As(err, &je) {
+				id = je.id
+			}
+			mu.Lock()
+			errfs = append(errfs, id)
+			mu.Unlock()
+			errfCh <- id
+		})
+	} else {
+		wk, _ = util.NewBaseJobWorker(context.Background(), int64(size))
+	}
+	cb := func(ctx context.Context, jobid uint64) error {
+		id := int(jobid)
+		mu.Lock()
+		inv[id]++
+		ctxs[id] = ctx
+		rel := make(chan error, 1)
+		release[id] = rel
+		mu.Unlock()
+		startedCh <- id
+		return <-rel
+	}
+
+	// bookkeeping used only to choose how long to wait for an observation (never the observation itself)
+	var bRunning []int
+	bCause, bNCause, bPending, bWaiting, bWReturned := false, false, false, false, false
+	removeRunning := func(id int) {
+		for i, x := range bRunning {
+			if x == id {
+				bRunning = append(bRunning[:i], bRunning[i+1:]...)
+				return
+			}
+		}
+	}
+	njRes := make(chan error, 4)
+	waitRes := make(chan error, 1)
+	res := schedResult{waitErr: -1}
+
+	waitStarted := func() {
+		select {
+		case id := <-startedCh:
+			bRunning = append(bRunning, id)
+		case <-time.After(long):
+			res.notes = append(res.notes, "accepted job never started")
+		}
+	}
+	njObserve := func(expectResult bool) int { // 0 nothing yet, 1 accepted, 3+code rejected
+		var err error
+		if expectResult {
+			select {
+			case err = <-njRes:
+			case <-time.After(long):
+				return 0
+			}
+		} else {
+			select {
+			case err = <-njRes:
+			case <-time.After(3 * time.Millisecond):
+				return 0
+			}
+		}
+		bPending = false
+		if err == nil {
+			waitStarted()
+			return 1
+		}
+		return 3 + errCode(err)
+	}
+	waitObserve := func() int {
+		if !bWaiting {
+			if bWReturned {
+				if res.waitErr == 0 {
+					return 2
+				}
+				return 3 + res.waitErr
+			}
+			return 0
+		}
+		expect := bNCause && (bCause || len(bRunning) == 0)
+		var err error
+		if expect {
+			select {
+			case err = <-waitRes:
+			case <-time.After(long):
+				return 1
+			}
+		} else {
+			select {
+			case err = <-waitRes:
+			case <-time.After(500 * time.Microsecond):
+				return 1
+			}
+		}
+		bWaiting, bWReturned = false, true
+		bCause, bNCause = true, true // the deferred Cancel of Wait
+		res.waitErr = errCode(err)
+		res.runningAtWaitReturn = append([]int{}, bRunning...) // parked callbacks: really still running
+		if err == nil {
+			return 2
+		}
+		return 3 + res.waitErr
+	}
+	pendingObserve := func() int {
+		if !bPending {
+			return 0
+		}
+		return njObserve(bNCause || len(bRunning) < size)
+	}
+
+	for _, o := range ops {
+		var ob obs
+		switch o.K {
+		case 0:
+			if bPending {
+				break
+			}
+			go func() { njRes <- wk.NewJob(cb) }()
+			expectBlock := !bNCause && len(bRunning) >= size
+			r := njObserve(!expectBlock)
+			if r == 0 {
+				bPending = true
+				ob.R1 = 2
+			} else {
+				ob.R1 = r
+			}
+		case 1:
+			mu.Lock()
+			rel, ok := release[o.ID]
+			ctx := ctxs[o.ID]
+			mu.Unlock()
+			running := false
+			for _, x := range bRunning {
+				if x == o.ID {
+					running = true
+				}
+			}
+			if !ok || !running {
+				break
+			}
+			if o.Fail {
+				rel <- &jobError{o.ID}
+				if errcb {
+					select {
+					case <-errfCh:
+					case <-time.After(long):
+						res.notes = append(res.notes, "errf not called")
+					}
+				} else {
+					select {
+					case <-ctx.Done():
+					case <-time.After(long):
+						res.notes = append(res.notes, "job error did not cancel the context")
+					}
+					bCause, bNCause = true, true
+				}
+			} else {
+				rel <- nil
+			}
+			removeRunning(o.ID)
+			ob.R2 = pendingObserve()
+		case 2:
+			wk.Done()
+			bNCause = true
+			ob.R2 = pendingObserve()
+		case 3:
+			wk.Cancel()
+			bCause, bNCause = true, true
+			ob.R2 = pendingObserve()
+		case 4:
+			if bWaiting || bWReturned {
+				break
+			}
+			bWaiting = true
+			go func() { waitRes <- wk.Wait() }()
+			ob.R2 = pendingObserve()
+		}
+		ob.W = waitObserve()
+		res.obs = append(res.obs, ob)
+	}
+	// cleanup: let everything end
+	mu.Lock()
+	for _, id := range bRunning {
+		release[id] <- nil
+	}
+	mu.Unlock()
+	wk.Close()
+	if bPending {
+		select {
+		case err := <-njRes:
+			if err == nil { // accepted during cleanup: let it end
+				select {
+				case id := <-startedCh:
+					mu.Lock()
+					release[id] <- nil
+					mu.Unlock()
+				case <-time.After(long):
+				}
+			}
+		case <-time.After(long):
+		}
+	}
+	mu.Lock()
+	maxid := -1
+	for id := range inv {
+		if id > maxid {
+			maxid = id
+		}
+	}
+	for id := 0; id <= maxid; id++ {
+		res.inv = append(res.inv, inv[id])
+	}
+	res.errfs = append([]int{}, errfs...)
+	mu.Unlock()
+	return res
+}
+
+func genSchedule(r *vh.Rand) (int, bool, []opT) {
+	size := r.Range(1, 4)
+	errcb := r.Chance(1, 6)
+	n := r.Range(3, 16)
+	var ops []opT
+	var running []int
+	count := 0
+	ncause, cause, pending, waited := false, false, false, false
+	for len(ops) < n {
+		k := r.Intn(10)
+		switch {
+		case k < 4: // NewJob
+			if pending {
+				continue
+			}
+			ops = append(ops, opT{K: 0})
+			if !ncause {
+				if len(running) < size {
+					running = append(running, count)
+					count++
+				} else {
+					pending = true
+				}
+			}
+		case k < 7: // JobEnd
+			if len(running) == 0 {
+				continue
+			}
+			j := r.Intn(len(running))
+			id := running[j]
+			fail := r.Chance(1, 3)
+			ops = append(ops, opT{K: 1, ID: id, Fail: fail})
+			running = append(running[:j], running[j+1:]...)
+			if fail && !errcb {
+				cause, ncause = true, true
+			}
+			if pending {
+				if ncause {
+					pending = false
+				} else if len(running) < size {
+					running = append(running, count)
+					count++
+					pending = false
+				}
+			}
+		case k < 8:
+			ops = append(ops, opT{K: 2})
+			ncause = true
+			pending = false
+		case k < 9:
+			if r.Chance(1, 2) {
+				continue
+			}
+			ops = append(ops, opT{K: 3})
+			cause, ncause = true, true
+			pending = false
+		default:
+			if waited {
+				continue
+			}
+			waited = true
+			ops = append(ops, opT{K: 4})
+			if ncause && (cause || len(running) == 0) {
+				cause, ncause = true, true
+			}
+		}
+		// Wait may return after any op
+		if waited && ncause && (cause || len(running) == 0) {
+			cause = true
+		}
+	}
+	return size, errcb, ops
+}
+
+func opsTerm(ops []opT) string {
+	ss := make([]string, len(ops))
+	for i, o := range ops {
+		ss[i] = vh.Tuple(fmt.Sprintf("%d", o.K), fmt.Sprintf("%d", o.ID), vh.Bool(o.Fail))
+	}
+	return "[" + join(ss) + "]%nat"
+}
+
+func join(ss []string) string {
+	out := ""
+	for i, s := range ss {
+		if i > 0 {
+			out += "; "
+		}
+		out += s
+	}
+	return out
+}
+
+func natList(xs []int) string {
+	ss := make([]string, len(xs))
+	for i, x := range xs {
+		ss[i] = fmt.Sprintf("%d", x)
+	}
+	return "[" + join(ss) + "]%nat"
+}
+
+// ---------------------------------------------------------------- free-running
+
+type freeCase struct {
+	Fn      string `json:"fn"` // "run" | "errcb" | "batch"
+	Size    int    `json:"size"`
+	Workers int    `json:"workers"` // worker size (run/errcb) or batch limit
+	FailAt  []int  `json:"fail_at"`
+	PrefFailAt int `json:"pref_fail_at"` // batch: pref(last) fails for this last (-1 none)
+	CancelAfter int `json:"cancel_after"` // cancel the parent context after this many job starts (-1 never)
+	Seed    uint64 `json:"seed"`
+}
+
+type fev struct {
+	kind byte // 'p' pref, 's' job start, 'e' job end
+	i    int
+	last int
+}
+
+func has(l []int, x int) bool {
+	for _, y := range l {
+		if x == y {
+			return true
+		}
+	}
+	return false
+}
+
+// returns failure class ("" = property holds) and description
+func runFree(fc freeCase) (string, string) {
+	r := vh.NewRand(fc.Seed)
+	delays := make([]time.Duration, fc.Size)
+	for i := range delays {
+		delays[i] = time.Duration(r.Intn(200)) * time.Microsecond
+	}
+	var mu sync.Mutex
+	var evs []fev
+	inv := make([]int32, fc.Size)
+	var started int32
+	var inflight int32
+	ctx, cancel := context.WithCancel(context.Background())
+	defer cancel()
+	var errfCalls int32
+	job := func(ctx context.Context, i, last uint64) error {
+		atomic.AddInt32(&inflight, 1)
+		defer atomic.AddInt32(&inflight, -1)
+		if int(i) < len(inv) {
+			atomic.AddInt32(&inv[i], 1)
+		}
+		mu.Lock()
+		evs = append(evs, fev{'s', int(i), int(last)})
+		mu.Unlock()
+		if n := atomic.AddInt32(&started, 1); fc.CancelAfter >= 0 && int(n) == fc.CancelAfter+1 {
+			cancel()
+		}
+		if int(i) < len(delays) {
+			time.Sleep(delays[i])
+		}
+		mu.Lock()
+		evs = append(evs, fev{'e', int(i), int(last)})
+		mu.Unlock()
+		if has(fc.FailAt, int(i)) {
+			return &jobError{int(i)}
 		}
 		return nil
-	})
-	fmt.Printf("(b) RunJobWorker returned %v; is job0 error: %v; is context.Canceled: %v\n", err, errors.Is(err, e0), errors.Is(err, context.Canceled))
-
-	// (a) job A parked, job B fails, Wait returns while A still running
-	wk, _ := util.NewBaseJobWorker(context.Background(), 2)
-	relA := make(chan struct{})
-	endedA := make(chan struct{})
-	_ = wk.NewJob(func(ctx context.Context, _ uint64) error { <-relA; close(endedA); return nil })
-	_ = wk.NewJob(func(ctx context.Context, _ uint64) error { return e0 })
-	wk.Done()
-	werr := wk.Wait()
-	select {
-	case <-endedA:
-		fmt.Println("(a) A ended before Wait returned")
-	default:
-		fmt.Printf("(a) Wait returned %v while job A is still running\n", werr)
 	}
-	close(relA)
+	var err error
+	switch fc.Fn {
+	case "run":
+		err = util.RunJobWorker(ctx, int64(fc.Workers), int64(fc.Size), func(ctx context.Context, i, _ uint64) error { return job(ctx, i, 0) })
+	case "errcb":
+		err = util.RunErrCallbackJobWorker(ctx, int64(fc.Workers), int64(fc.Size), func(error) { atomic.AddInt32(&errfCalls, 1) },
+			func(ctx context.Context, i, _ uint64) error { return job(ctx, i, 0) })
+	case "batch":
+		err = util.BatchWork(ctx, int64(fc.Size), int64(fc.Workers),
+			func(_ context.Context, last uint64) error {
+				mu.Lock()
+				evs = append(evs, fev{'p', -1, int(last)})
+				mu.Unlock()
+				if int(last) == fc.PrefFailAt {
+					return &jobError{1000000 + int(last)}
+				}
+				return nil
+			}, job)
+	}
+	inflightAtReturn := atomic.LoadInt32(&inflight)
+	code := errCode(err)
+	mu.Lock()
+	snapshot := append([]fev{}, evs...)
+	mu.Unlock()
+	time.Sleep(300 * time.Microsecond)
+
+	for i := range inv {
+		if n := atomic.LoadInt32(&inv[i]); n > 1 {
+			return "job-run-twice", fmt.Sprintf("index %d ran %d times", i, n)
+		}
+	}
+	cancelled := fc.CancelAfter >= 0
+	switch {
+	case code == 0:
+		// success: every index ran exactly once and ended before the return
+		if fc.Fn != "errcb" && len(fc.FailAt) > 0 {
+			// a failing job may be skipped only if ... it cannot: success means every job ran
+			return "job-error-swallowed", fmt.Sprintf("nil returned although jobs %v fail", fc.FailAt)
+		}
+		if fc.Fn == "batch" && fc.PrefFailAt >= 0 {
+			for _, e := range snapshot {
+				if e.kind == 'p' && e.last == fc.PrefFailAt {
+					return "pref-error-swallowed", "nil returned although pref failed"
+				}
+			}
+		}
+		for i := range inv {
+			if atomic.LoadInt32(&inv[i]) != 1 {
+				return "success-without-running-every-job", fmt.Sprintf("nil returned, index %d ran %d times", i, inv[i])
+			}
+		}
+		if inflightAtReturn != 0 {
+			return "success-before-jobs-end", fmt.Sprintf("nil returned with %d jobs in flight", inflightAtReturn)
+		}
+		if fc.Fn == "errcb" && int(atomic.LoadInt32(&errfCalls)) != len(fc.FailAt) {
+			return "errf-count", fmt.Sprintf("errf called %d times for %d failing jobs", errfCalls, len(fc.FailAt))
+		}
+	case code >= 10:
+		id := code - 10
+		if fc.Fn == "errcb" {
+			return "errcallback-worker-returned-job-error", fmt.Sprintf("returned error of job %d", id)
+		}
+		if id >= 1000000 {
+			if id-1000000 != fc.PrefFailAt {
+				return "foreign-error", "pref error of another batch"
+			}
+		} else if !has(fc.FailAt, id) || atomic.LoadInt32(&inv[id]) != 1 {
+			return "foreign-error", fmt.Sprintf("returned the error of job %d which did not fail/run", id)
+		}
+	case code == 1:
+		if !cancelled {
+			return "cancelled-instead-of-job-error", fmt.Sprintf("context.Canceled returned without a cancellation (failing jobs %v)", fc.FailAt)
+		}
+	default:
+		if !(fc.Size < 1 || fc.Workers < 1) {
+			return "unexpected-error", fmt.Sprintf("%v", err)
+		}
+	}
+	if fc.Fn == "batch" && fc.Size >= 1 && fc.Workers >= 1 {
+		// batch structure on the events seen until the return: pref(last) first, then only jobs of that
+		// batch; the next pref only after every job of the previous batch has ended
+		curLast, open := -1, 0
+		seenStart := map[int]bool{}
+		expectNextStart := 0
+		for _, e := range snapshot {
+			switch e.kind {
+			case 'p':
+				if open != 0 && code == 0 {
+					return "batch-overlap", fmt.Sprintf("pref(%d) called while %d jobs of the previous batch had not ended", e.last, open)
+				}
+				wantLast := expectNextStart + fc.Workers - 1
+				if wantLast > fc.Size-1 {
+					wantLast = fc.Size - 1
+				}
+				if e.last != wantLast {
+					return "batch-boundary", fmt.Sprintf("pref(last=%d), want last=%d (size=%d limit=%d)", e.last, wantLast, fc.Size, fc.Workers)
+				}
+				curLast = e.last
+				expectNextStart = e.last + 1
+			case 's':
+				if e.last != curLast {
+					return "job-before-its-pref", fmt.Sprintf("job %d ran with last=%d but the current batch is %d", e.i, e.last, curLast)
+				}
+				if start := (curLast / fc.Workers) * fc.Workers; e.i > curLast || e.i < start {
+					return "batch-boundary", fmt.Sprintf("job %d outside its batch (last=%d)", e.i, curLast)
+				}
+				if seenStart[e.i] {
+					return "job-run-twice", fmt.Sprintf("index %d twice", e.i)
+				}
+				seenStart[e.i] = true
+				open++
+			case 'e':
+				open--
+			}
+		}
+		if code == 0 && len(seenStart) != fc.Size {
+			return "success-without-running-every-job", fmt.Sprintf("%d of %d indices", len(seenStart), fc.Size)
+		}
+	}
+	return "", ""
+}
+
+func main() {
+	o := vh.ParseFlags()
+	res := vh.NewResult("(1) forced schedules on the real util.BaseJobWorker / ErrCallbackJobWorker: random sequences of NewJob / job end (ok or error) / Done / Cancel / Wait with parked jobs, semaphore sizes 1..4; every call's result and the moment Wait returns are compared with the Coq model; (2) free-running RunJobWorker / RunErrCallbackJobWorker / BatchWork, sizes 1..60, worker sizes / limits 1..12, failing jobs, failing pref, cancellation; non-trivial = schedule with at least one accepted job and a Wait, or free case with more jobs than workers or a failure")
+	r := vh.NewRand(o.Seed)
+	cases := &vh.Cases{Import: "From MV Require Import C33.Model.", Type: "case", CheckFn: "check", Shard: 400}
+	var rmu sync.Mutex
+	knownReported := 0
+
+	type sched struct {
+		size  int
+		errcb bool
+		ops   []opT
+		out   schedResult
+	}
+	record := func(s *sched, bucket string) {
+		rmu.Lock()
+		defer rmu.Unlock()
+		rp := replay{Kind: "schedule", Size: s.size, ErrCb: s.errcb, Ops: s.ops}
+		key := fmt.Sprintf("%d/%v/%v", s.size, s.errcb, s.ops)
+		hasWait := false
+		for _, op := range s.ops {
+			if op.K == 4 {
+				hasWait = true
+			}
+		}
+		res.Count(key, hasWait && len(s.out.inv) > 0)
+		res.Dist(bucket)
+		for _, n := range s.out.notes {
+			res.Fail("harness-timeout", n, rp)
+		}
+		for id, n := range s.out.inv {
+			if n != 1 {
+				res.Fail("accepted-job-not-run-once", fmt.Sprintf("job %d invoked %d times", id, n), rp)
+			}
+		}
+		if s.out.waitErr >= 0 {
+			res.Dist("wait_returned")
+			if len(s.out.runningAtWaitReturn) > 0 {
+				if s.out.waitErr == 0 {
+					res.Fail("wait-nil-before-jobs-end", fmt.Sprintf("Wait returned nil while jobs %v were still running", s.out.runningAtWaitReturn), rp)
+				} else {
+					res.Dist("wait_returned_error_with_running_jobs")
+					if knownReported < 3 {
+						knownReported++
+						res.Fail("wait-returns-before-running-jobs-end-on-error",
+							fmt.Sprintf("Wait returned error code %d while jobs %v were still running", s.out.waitErr, s.out.runningAtWaitReturn), rp)
+					}
+				}
+			}
+		}
+		ot := make([]string, len(s.out.obs))
+		for i, ob := range s.out.obs {
+			ot[i] = vh.Tuple(fmt.Sprintf("%d", ob.R1), fmt.Sprintf("%d", ob.R2), fmt.Sprintf("%d", ob.W))
+		}
+		cases.Add(vh.Tuple(vh.Nat(s.size), vh.Bool(s.errcb), opsTerm(s.ops), "["+join(ot)+"]%nat", natList(s.out.inv), natList(s.out.errfs)),
+			map[string]any{"input": rp, "obs": s.out.obs, "inv": s.out.inv, "errfs": s.out.errfs})
+		if bucket == "schedule" {
+			res.Sample(map[string]any{"size": s.size, "errcb": s.errcb, "ops": s.ops, "obs": s.out.obs})
+		}
+	}
+
+	if o.Replay != "" {
+		var rp replay
+		if err := vh.ReadReplay(o.Replay, &rp); err != nil {
+			panic(err)
+		}
+		if rp.Kind == "free" && rp.Free != nil {
+			c, d := runFree(*rp.Free)
+			fmt.Printf("replay free %+v => %s %s\n", *rp.Free, c, d)
+		} else {
+			s := &sched{size: rp.Size, errcb: rp.ErrCb, ops: rp.Ops}
+			s.out = runSchedule(s.size, s.errcb, s.ops)
+			fmt.Printf("replay schedule %+v => %+v\n", rp, s.out)
+			record(s, "replay")
+		}
+	}
+
+	// corpus: the known finding (job 0 parked, job 1 fails, Wait returns the error while job 0 runs);
+	// the fixed defect (NewJob blocked, job fails: NewJob must return the job's error); plain cases
+	corpus := [][]opT{
+		{{K: 0}, {K: 0}, {K: 2}, {K: 4}, {K: 1, ID: 1, Fail: true}, {K: 1, ID: 0}},
+		{{K: 0}, {K: 0}, {K: 1, ID: 0, Fail: true}, {K: 2}, {K: 4}},
+		{{K: 0}, {K: 0}, {K: 2}, {K: 4}, {K: 1, ID: 0}, {K: 1, ID: 1}},
+		{{K: 0}, {K: 2}, {K: 0}, {K: 4}, {K: 1, ID: 0}},
+		{{K: 3}, {K: 4}, {K: 0}},
+		{{K: 0}, {K: 4}, {K: 3}, {K: 1, ID: 0}},
+	}
+	for _, ops := range corpus {
+		s := &sched{size: 2, ops: ops}
+		s.out = runSchedule(2, false, ops)
+		record(s, "corpus")
+	}
+	for _, ops := range [][]opT{
+		{{K: 0}, {K: 0}, {K: 1, ID: 0, Fail: true}, {K: 2}, {K: 4}},
+		{{K: 0}, {K: 0}, {K: 2}, {K: 4}, {K: 1, ID: 0}},
+		{{K: 0}, {K: 0}, {K: 1, ID: 0}, {K: 1, ID: 1, Fail: true}, {K: 0}, {K: 2}, {K: 4}},
+	} {
+		s := &sched{size: 1, ops: ops}
+		s.out = runSchedule(1, false, ops)
+		record(s, "corpus")
+	}
+
+	ns := o.Pick(1500, 30000)
+	scheds := make([]*sched, ns)
+	for i := range scheds {
+		sz, ecb, ops := genSchedule(r)
+		scheds[i] = &sched{size: sz, errcb: ecb, ops: ops}
+	}
+	var wg sync.WaitGroup
+	sem := make(chan struct{}, 12)
+	for _, s := range scheds {
+		wg.Add(1)
+		sem <- struct{}{}
+		go func(s *sched) {
+			defer wg.Done()
+			defer func() { <-sem }()
+			s.out = runSchedule(s.size, s.errcb, s.ops)
+		}(s)
+	}
+	wg.Wait()
+	for _, s := range scheds {
+		record(s, "schedule")
+	}
+
+	// free-running
+	nf := o.Pick(1500, 30000)
+	for k := 0; k < nf; k++ {
+		fc := freeCase{Fn: []string{"run", "errcb", "batch", "batch"}[r.Intn(4)], Size: r.Range(1, 60), Workers: r.Range(1, 12), PrefFailAt: -1, CancelAfter: -1, Seed: r.U64()}
+		if r.Chance(1, 4) {
+			fc.Size = fc.Workers * r.Range(1, 5)
+		}
+		switch r.Intn(5) {
+		case 0:
+			fc.FailAt = []int{r.Intn(fc.Size)}
+		case 1:
+			fc.FailAt = []int{r.Intn(fc.Size), r.Intn(fc.Size), r.Intn(fc.Size)}
+		case 2:
+			if fc.Fn == "batch" {
+				// pref is called with the last index of a batch
+				b := r.Intn((fc.Size + fc.Workers - 1) / fc.Workers)
+				l := (b+1)*fc.Workers - 1
+				if l > fc.Size-1 {
+					l = fc.Size - 1
+				}
+				fc.PrefFailAt = l
+			}
+		case 3:
+			if r.Chance(1, 2) {
+				fc.CancelAfter = r.Intn(fc.Size)
+			}
+		}
+		sort.Ints(fc.FailAt)
+		{
+			var d []int
+			for _, x := range fc.FailAt {
+				if len(d) == 0 || d[len(d)-1] != x {
+					d = append(d, x)
+				}
+			}
+			fc.FailAt = d
+		}
+		class, desc := runFree(fc)
+		key := fmt.Sprintf("%s/%d/%d/%v/%d/%d", fc.Fn, fc.Size, fc.Workers, fc.FailAt, fc.PrefFailAt, fc.CancelAfter)
+		res.Count(key, fc.Size > fc.Workers || len(fc.FailAt) > 0 || fc.PrefFailAt >= 0 || fc.CancelAfter >= 0)
+		res.Dist("free:" + fc.Fn)
+		if class != "" {
+			fcc := fc
+			res.Fail(class, fmt.Sprintf("%s(size=%d, workers/limit=%d, fail=%v, pref_fail=%d, cancel_after=%d): %s", fc.Fn, fc.Size, fc.Workers, fc.FailAt, fc.PrefFailAt, fc.CancelAfter, desc), replay{Kind: "free", Free: &fcc})
+		}
+	}
+
+	res.ModelCases = cases.Len()
+	if err := cases.Write(o.Out); err != nil {
+		panic(err)
+	}
+	res.Write(o.Out)
 }
